@@ -10,6 +10,9 @@ package main
 //               callbacks, then a restart with the same resume file; observables: resume file and
 //               tree at the kill, final tree and counts
 // Oracle-only classes "race/..." : the same pipelines in a child built with the race detector.
+// Classes ".../cpusN-procsM" of both groups: the extraction runs in a child process restricted
+// to N CPUs (affinity) and GOMAXPROCS M (c19Env, c19BudgetCases) - what Concurrency -1 resolves
+// to, and the schedules, depend on that budget.
 
 import (
 	stdtar "archive/tar"
@@ -20,6 +23,7 @@ import (
 	"io"
 	"os"
 	"path/filepath"
+	"regexp"
 	"runtime"
 	"sort"
 	"strconv"
@@ -624,10 +628,14 @@ func c19ClassCoq(cls string) string {
 }
 
 // numWorkers as ExtractZip computes it is not an input we control for -1: the model is told
-// the number the harness expects from the documented rule (NumCPU-1, at least 1)
-func c19ModelWorkers(w int) int {
+// the number the harness expects from the documented rule (NumCPU-1, at least 1), NumCPU being
+// that of the process that ran the extraction (a child with a processor budget reports its own)
+func c19ModelWorkers(w, ncpu int) int {
+	if ncpu <= 0 { // not reported (the run did not get that far): this process's
+		ncpu = numCPU()
+	}
 	if w < 0 {
-		w = numCPU() - 1
+		w = ncpu - 1
 	}
 	if w < 1 {
 		w = 1
@@ -642,7 +650,24 @@ type c19Run struct {
 	Msg    string
 	Counts c19Counts
 	Done   []string
+	// of the process that ran the extraction (children only)
+	NumCPU   int `json:",omitempty"`
+	MaxProcs int `json:",omitempty"`
 }
+
+// c19Env is the processor budget of the process that extracts: the number of CPUs it may run
+// on (affinity mask: what runtime.NumCPU reports; a one-core machine or container, taskset)
+// and GOMAXPROCS (environment variable).  0 = not restricted.  Concurrency -1 means "pick for
+// me": what is picked depends on this budget, so "for all worker counts 1..16 and -1" is
+// also a statement about every budget - and so are the schedules (one P runs the workers
+// almost in turn, more Ps than CPUs pre-empts them anywhere).
+type c19Env struct{ Cpus, Procs int }
+
+func (e c19Env) restricted() bool { return e.Cpus > 0 || e.Procs > 0 }
+
+func (e c19Env) String() string { return fmt.Sprintf("cpus%d-procs%d", e.Cpus, e.Procs) }
+
+var c19Envs = []c19Env{{Cpus: 1}, {Procs: 1}, {Cpus: 2}, {Procs: 2}, {Cpus: 1, Procs: 4}, {Cpus: 2, Procs: 1}, {Procs: 3}, {Cpus: 3}}
 
 func c19ExtractZip(z []byte, out string, workers int, resume string) c19Run {
 	var mu sync.Mutex
@@ -721,8 +746,12 @@ func runC19(c0 *Ctx) error {
 	}
 	phase("race")
 	// last, so that the cases above are the same as before this class existed
-	err := c19ContentCases(c)
+	if err := c19ContentCases(c); err != nil {
+		return err
+	}
 	phase("contents")
+	err := c19BudgetCases(c)
+	phase("cpu budgets")
 	return err
 }
 
@@ -743,7 +772,7 @@ func c19ExtractCases(c *Ctx) error {
 		if flavor == "tar" {
 			workers = 1
 		}
-		if err := c19OneExtract(c, cr, b, class, flavor, workers, cr.Chance(1, 2)); err != nil {
+		if err := c19OneExtract(c, cr, b, class, flavor, workers, cr.Chance(1, 2), c19Env{}); err != nil {
 			return err
 		}
 	}
@@ -763,14 +792,77 @@ func c19ContentCases(c *Ctx) error {
 		if flavor == "tar" {
 			workers = 1
 		}
-		if err := c19OneExtract(c, cr, b, "contents", flavor, workers, cr.Chance(1, 2)); err != nil {
+		if err := c19OneExtract(c, cr, b, "contents", flavor, workers, cr.Chance(1, 2), c19Env{}); err != nil {
 			return err
 		}
 	}
 	return nil
 }
 
-func c19OneExtract(c *Ctx, cr *lib.Rng, b *lib.Build, class, flavor string, workers int, withResume bool) error {
+// c19BudgetCases: extraction in a child process whose processor budget is restricted (see
+// c19Env) - CPUs allowed 1..3 (thorough 1..4), GOMAXPROCS 1..4 (thorough 1..8), both, with
+// fewer and with more Ps than CPUs.  Every budget of c19Envs first meets Concurrency -1 (the
+// count that is derived from the budget), then the explicit counts, which must not depend on
+// it (16 workers on one P, 1 worker on 4 Ps ...).  Then interrupted extractions (the child
+// exits inside OnEntryDone) and restarts under such budgets.
+func c19BudgetCases(c *Ctx) error {
+	r := c.Rng.Fork()
+	classes := []string{"mixed", "wide", "links", "big+small", "emptyish", "longnames"}
+	n := c.N(12, 80)
+	for i := 0; i < n; i++ {
+		cr := r.Fork()
+		env := c19Envs[i%len(c19Envs)]
+		workers := -1
+		if i >= len(c19Envs) {
+			if c.Thorough() {
+				env = c19Env{Cpus: cr.Range(0, 4), Procs: cr.Range(0, 4) * cr.Range(1, 2)}
+				if !env.restricted() {
+					env.Cpus = 1
+				}
+			} else {
+				env = []c19Env{{Cpus: 1}, {Procs: 1}, {Cpus: 1, Procs: 4}, {Cpus: 2, Procs: 1}}[i%4]
+			}
+			if i%2 == 1 {
+				workers = []int{16, 2, 1, 4}[(i/2)%4]
+				if c.Thorough() && cr.Chance(1, 3) {
+					workers = cr.Range(0, 16)
+				}
+			}
+		}
+		class := classes[(i+i/len(classes))%len(classes)]
+		b := c19GenTree(cr, class, false)
+		if err := c19OneExtract(c, cr, b, class, []string{"zip", "czip"}[(i/3)%2], workers, i%3 != 2, env); err != nil {
+			return err
+		}
+	}
+	for i, n := 0, c.N(2, 12); i < n; i++ {
+		cr := r.Fork()
+		env := []c19Env{{Procs: 1}, {Cpus: 1}, {Cpus: 2, Procs: 1}, {Cpus: 1, Procs: 4}, {Cpus: 2}, {Procs: 2}}[i%6]
+		workers := -1
+		if i%4 == 3 {
+			workers = []int{16, 2, 4}[(i/4)%3]
+		}
+		class := []string{"mixed", "wide", "links"}[i%3]
+		b := c19GenTree(cr, class, false)
+		nonDir := len(b.Entries) - c19BuildCounts(b).Dirs
+		var chains [][]int
+		for _, k := range c19KillPoints(cr, nonDir, c.N(3, 8)) {
+			chains = append(chains, []int{k})
+		}
+		if nonDir >= 2 {
+			chains = append(chains, []int{cr.Range(1, nonDir), cr.Range(1, nonDir)})
+		}
+		if len(chains) == 0 {
+			chains = [][]int{{1}}
+		}
+		if err := c19ResumeConfig(c, cr, b, class, []string{"zip", "czip"}[i%2], workers, chains, "process", "", env); err != nil {
+			return err
+		}
+	}
+	return nil
+}
+
+func c19OneExtract(c *Ctx, cr *lib.Rng, b *lib.Build, class, flavor string, workers int, withResume bool, env c19Env) error {
 	base := filepath.Join(c.Tmp, "c19x")
 	defer os.RemoveAll(base)
 	os.RemoveAll(base)
@@ -818,7 +910,20 @@ func c19OneExtract(c *Ctx, cr *lib.Rng, b *lib.Build, class, flavor string, work
 			if withResume {
 				resume = filepath.Join(base, "resume")
 			}
-			run = c19ExtractZip(arc, out, workers, resume)
+			if env.restricted() { // in a child process with that processor budget
+				ap := filepath.Join(base, "a.zip")
+				if err := os.WriteFile(ap, arc, 0o644); err != nil {
+					return err
+				}
+				var err error
+				run, _, err = c19Child(c, c19ChildParams{Archive: ap, Out: out, Resume: resume, Workers: workers, Cpus: env.Cpus, Procs: env.Procs, CpuPick: cr.U64()})
+				if err != nil {
+					return err
+				}
+				obs["numCPU"], obs["gomaxprocs"] = run.NumCPU, run.MaxProcs
+			} else {
+				run = c19ExtractZip(arc, out, workers, resume)
+			}
 			if withResume && run.Class == "ok" {
 				if _, err := os.Stat(resume); err == nil && oracle == "" {
 					oracle = "the resume file is still there after a complete extraction"
@@ -846,12 +951,18 @@ func c19OneExtract(c *Ctx, cr *lib.Rng, b *lib.Build, class, flavor string, work
 		}
 	}
 	pj := newC19Proj(b, got)
-	mw := c19ModelWorkers(workers)
+	mw := c19ModelWorkers(workers, run.NumCPU)
 	nonDir := 0
 	for _, e := range b.Entries {
 		if e.Kind != "dir" {
 			nonDir++
 		}
+	}
+	clsName := fmt.Sprintf("extract/%s/%s/w%d", flavor, class, workers)
+	input := map[string]interface{}{"tree": b.Summary(), "flavor": flavor, "workers": workers, "resumeFile": withResume}
+	if env.restricted() {
+		clsName += "/" + env.String()
+		input["cpusAllowed"], input["GOMAXPROCS"] = env.Cpus, env.Procs
 	}
 	coq := fmt.Sprintf("($ID%%N, %s, %s, %d%%nat, %d%%N, (%s, %s, %s, %s, %d%%nat))", c19FlavorCoq(flavor), pj.tree(b), mw,
 		cr.U64()%(1<<31), c19Perm(ents, b), c19ClassCoq(run.Class), pj.obsTree(got, b), c19CoqCounts(run.Counts), len(run.Done))
@@ -859,9 +970,9 @@ func c19OneExtract(c *Ctx, cr *lib.Rng, b *lib.Build, class, flavor string, work
 	if oracle != "" && (cls != "ok" || len(ents) != len(b.Entries)) {
 		group = "" // the archive itself is broken: nothing to compare with the model
 	}
-	c.Out.Emit(&lib.Case{Group: group, Class: fmt.Sprintf("extract/%s/%s/w%d", flavor, class, workers),
+	c.Out.Emit(&lib.Case{Group: group, Class: clsName,
 		Nontrivial: len(b.Entries) >= 3 && nonDir >= 1,
-		Input:      map[string]interface{}{"tree": b.Summary(), "flavor": flavor, "workers": workers, "resumeFile": withResume},
+		Input:      input,
 		Obs:        obs, Oracle: oracle, Coq: coq})
 	return nil
 }
@@ -1041,6 +1152,9 @@ type c19ChildParams struct {
 	Resume    string
 	Workers   int
 	KillAfter int // exit(77) inside the KillAfter-th OnEntryDone callback; 0 = never
+	Cpus      int // run on that many CPUs only (affinity set before the Go runtime starts); 0 = as the parent
+	Procs     int // GOMAXPROCS of the child (set by the parent in its environment); 0 = default
+	CpuPick   uint64
 }
 
 const c19KillExit = 77
@@ -1053,6 +1167,12 @@ func runC19Child(c *Ctx) error {
 	}
 	if err := json.Unmarshal(b, &p); err != nil {
 		return err
+	}
+	if p.Cpus > 0 && os.Getenv(c19PinnedEnv) == "" {
+		// runtime.NumCPU is read once, when the process starts: restrict this thread and
+		// start over (only returns when that is not possible: the run goes on unrestricted
+		// and reports the NumCPU it really had)
+		c19PinAndReexec(p.Cpus, p.CpuPick)
 	}
 	f, err := os.Open(p.Archive)
 	if err != nil {
@@ -1067,6 +1187,21 @@ func runC19Child(c *Ctx) error {
 	var mu sync.Mutex
 	var run c19Run
 	var res *archiver.ExtractResult
+	// a blocked extraction is reported by the child itself (see c19HangWatch): the parent's
+	// 120 s deadline is the last resort only
+	var emit sync.Mutex
+	emitted := false
+	stop := c19HangWatch(&calls, func(msg string) {
+		emit.Lock()
+		defer emit.Unlock()
+		if emitted {
+			return
+		}
+		emitted = true
+		c.Out.Emit(&lib.Case{Class: "child", Obs: c19Run{Class: "hang", Msg: msg, NumCPU: runtime.NumCPU(), MaxProcs: runtime.GOMAXPROCS(0)}})
+		c.Out.Close()
+		os.Exit(0)
+	})
 	run.Class, run.Msg = lib.Guard(func() error {
 		var err error
 		res, err = archiver.ExtractZip(f, st.Size(), p.Out, archiver.ExtractSettings{Consumer: lib.Quiet, Concurrency: p.Workers, ResumeFrom: p.Resume,
@@ -1083,10 +1218,115 @@ func runC19Child(c *Ctx) error {
 	if res != nil {
 		run.Counts = c19Counts{res.Dirs, res.Files, res.Symlinks}
 	}
+	close(stop)
+	run.NumCPU, run.MaxProcs = runtime.NumCPU(), runtime.GOMAXPROCS(0)
+	emit.Lock()
+	defer emit.Unlock()
+	if emitted {
+		return nil
+	}
+	emitted = true
 	mu.Lock()
 	defer mu.Unlock()
 	c.Out.Emit(&lib.Case{Class: "child", Obs: run})
 	return nil
+}
+
+// c19Goroutines: id -> wait state (+ the itchio/wharf function it is in) of every goroutine of
+// this process but the calling one, from a dump taken with the world stopped
+func c19Goroutines() map[string]string {
+	var buf []byte
+	for n := 256 << 10; ; n *= 2 {
+		buf = make([]byte, n)
+		if m := runtime.Stack(buf, true); m < n {
+			buf = buf[:m]
+			break
+		}
+	}
+	out := map[string]string{}
+	for i, g := range strings.Split(string(buf), "\n\n") {
+		if i == 0 { // the caller comes first
+			continue
+		}
+		var id, st string
+		if f := strings.Fields(g); len(f) >= 2 && f[0] == "goroutine" {
+			id = f[1]
+		}
+		if a, b := strings.Index(g, "["), strings.Index(g, "]"); a >= 0 && b > a {
+			st = g[a+1 : b]
+			if k := strings.Index(st, ","); k >= 0 {
+				st = st[:k]
+			}
+		}
+		if id == "" {
+			continue
+		}
+		if fn := c19WharfFrame.FindString(g); fn != "" {
+			st += " in " + strings.TrimPrefix(fn, "github.com/itchio/wharf/")
+		}
+		out[id] = st
+	}
+	return out
+}
+
+// c19HangWatch runs in the process that does nothing but one extraction.  It reports a hang
+// when every goroutine that did not exist before the extraction started - the one that called
+// ExtractZip and whatever was started since - sits in a state that only another goroutine can
+// end (channel operation, select, lock, WaitGroup: c19Parked), the goroutines that did exist
+// (a library's ticker ...) are parked too or in the state they were in then, and the set of
+// goroutines, their states and the number of OnEntryDone callbacks have not changed over 40
+// consecutive samples and at least 5 s.  Nothing is left then that could wake any of them.
+// Not a matter of speed: a goroutine that is merely starved on a busy machine is "runnable",
+// one that waits for the disk is in "syscall"/"IO wait", a timer shows as "sleep".
+func c19HangWatch(calls *int64, report func(string)) (stop chan struct{}) {
+	stop = make(chan struct{})
+	base := c19Goroutines() // the caller is not in there
+	go func() {
+		last, since, samples := "", time.Now(), 0
+		for {
+			select {
+			case <-stop:
+				return
+			case <-time.After(100 * time.Millisecond):
+			}
+			gs := c19Goroutines()
+			var sig, sigOld []string
+			stuck := true
+			for id, st := range gs {
+				was, old := base[id]
+				w := st
+				if k := strings.Index(w, " in "); k >= 0 {
+					w = w[:k]
+				}
+				if k := strings.Index(w, " ("); k >= 0 { // "chan receive (nil chan)", "select (no cases)"
+					w = w[:k]
+				}
+				// one that was there before the extraction (a library's ticker ...) may also be in
+				// the state it was in then (sleep)
+				if !c19Parked[w] && !(old && st == was) {
+					stuck = false
+				}
+				if old {
+					sigOld = append(sigOld, id+" "+st)
+				} else {
+					sig = append(sig, id+" "+st)
+				}
+			}
+			sort.Strings(sig)
+			sort.Strings(sigOld)
+			s := fmt.Sprintf("%d callbacks; %s", atomic.LoadInt64(calls), strings.Join(sig, "; "))
+			if all := s + " | " + strings.Join(sigOld, "; "); !stuck || len(sig) == 0 || all != last {
+				last, since, samples = all, time.Now(), 0
+				continue
+			}
+			samples++
+			if samples >= 40 && time.Since(since) >= 5*time.Second {
+				report("the extraction is blocked for ever: for 5 s every goroutine of it has been waiting for another one (goroutine, state: " + s + ")")
+				return
+			}
+		}
+	}()
+	return stop
 }
 
 // c19Child runs one extraction in a child process; killed reports whether it died at the
@@ -1098,7 +1338,11 @@ func c19Child(c *Ctx, p c19ChildParams) (run c19Run, killed bool, err error) {
 	}
 	result := filepath.Join(c.Tmp, "c19child.jsonl")
 	defer os.Remove(result)
-	cr, err := runChild(self, "C19child", p, result, c.Tmp, 120*time.Second)
+	var env []string
+	if p.Procs > 0 {
+		env = append(env, "GOMAXPROCS="+strconv.Itoa(p.Procs))
+	}
+	cr, err := runChild(self, "C19child", p, result, c.Tmp, 120*time.Second, env...)
 	if err != nil {
 		return run, false, err
 	}
@@ -1107,6 +1351,9 @@ func c19Child(c *Ctx, p c19ChildParams) (run c19Run, killed bool, err error) {
 		return c19Run{Class: "hang", Msg: "child extraction did not finish in 120 s"}, false, nil
 	case cr.Exit == c19KillExit:
 		return run, true, nil
+	case cr.Exit != 0 && strings.Contains(cr.Stderr, "all goroutines are asleep - deadlock"):
+		// the Go runtime found every goroutine of the child blocked for ever: a hang, reported at once
+		return c19Run{Class: "hang", Msg: "child extraction blocked for ever (Go runtime: all goroutines are asleep - deadlock): " + c19BlockedAt(cr.Stderr)}, false, nil
 	case cr.Exit != 0:
 		return c19Run{Class: "panic", Msg: "child exited with status " + strconv.Itoa(cr.Exit) + ": " + tail(cr.Stderr, 600)}, false, nil
 	}
@@ -1119,6 +1366,20 @@ func c19Child(c *Ctx, p c19ChildParams) (run c19Run, killed bool, err error) {
 		return run, false, fmt.Errorf("child result: %v", err)
 	}
 	return cs.Obs, false, nil
+}
+
+var c19WharfFrame = regexp.MustCompile(`github\.com/itchio/wharf/[^\s(]+`)
+
+// the itchio/wharf functions on the stacks of a deadlock report, outermost call last
+func c19BlockedAt(stderr string) string {
+	fns := uniq(c19WharfFrame.FindAllString(stderr, -1))
+	if len(fns) > 6 {
+		fns = fns[:6]
+	}
+	if len(fns) == 0 {
+		return tail(stderr, 300)
+	}
+	return "blocked in " + strings.Join(fns, " <- ")
 }
 
 // readResume: the index stored in the resume file, -1 when absent or unreadable (as ExtractZip reads it)
@@ -1164,7 +1425,12 @@ func c19KillPoints(r *lib.Rng, nonDir, max int) []int {
 
 // one tree, one worker count, a list of interruption chains (each chain: kill points of
 // successive runs, the last run is left to finish)
-func c19ResumeConfig(c *Ctx, cr *lib.Rng, b *lib.Build, class, flavor string, workers int, chains [][]int, mode, corpus string) error {
+func c19ResumeConfig(c *Ctx, cr *lib.Rng, b *lib.Build, class, flavor string, workers int, chains [][]int, mode, corpus string, env c19Env) error {
+	if env.restricted() && mode != "process" {
+		return fmt.Errorf("c19: a processor budget needs interruption mode process")
+	}
+	pick := cr.U64()
+	ncpu := 0
 	base := filepath.Join(c.Tmp, "c19r")
 	defer os.RemoveAll(base)
 	os.RemoveAll(base)
@@ -1198,7 +1464,11 @@ func c19ResumeConfig(c *Ctx, cr *lib.Rng, b *lib.Build, class, flavor string, wo
 		// one extraction; kill > 0: interrupt it inside the kill-th OnEntryDone callback
 		attempt := func(kill int) (run c19Run, killed bool, lastDone int, tree *lib.Build, err error) {
 			if mode == "process" {
-				run, killed, err = c19Child(c, c19ChildParams{Archive: ap, Out: out, Resume: resume, Workers: workers, KillAfter: kill})
+				run, killed, err = c19Child(c, c19ChildParams{Archive: ap, Out: out, Resume: resume, Workers: workers, KillAfter: kill,
+					Cpus: env.Cpus, Procs: env.Procs, CpuPick: pick})
+				if run.NumCPU > 0 {
+					ncpu = run.NumCPU
+				}
 				if err != nil || !killed {
 					return run, killed, -1, nil, err
 				}
@@ -1245,7 +1515,9 @@ func c19ResumeConfig(c *Ctx, cr *lib.Rng, b *lib.Build, class, flavor string, wo
 			return fmt.Errorf("c19: the last run of chain %v was interrupted", chain)
 		}
 		got := &lib.Build{}
-		if final.Class != "ok" {
+		if final.Class != "ok" && len(kills) == 0 {
+			oracle = "extraction (not interrupted yet): " + final.Class + ": " + final.Msg
+		} else if final.Class != "ok" {
 			oracle = "extraction after restart: " + final.Class + ": " + final.Msg
 		} else {
 			got, err = lib.ReadBuild(out)
@@ -1280,7 +1552,7 @@ func c19ResumeConfig(c *Ctx, cr *lib.Rng, b *lib.Build, class, flavor string, wo
 		os.RemoveAll(out)
 		os.Remove(resume)
 		pj := newC19Proj(b, killTree, got)
-		mw := c19ModelWorkers(workers)
+		mw := c19ModelWorkers(workers, ncpu)
 		ld := "None"
 		if lastDone >= 0 {
 			ld = fmt.Sprintf("(Some %d%%nat)", lastDone)
@@ -1292,10 +1564,18 @@ func c19ResumeConfig(c *Ctx, cr *lib.Rng, b *lib.Build, class, flavor string, wo
 		if corpus != "" {
 			cls = "corpus/" + corpus
 		}
+		input := map[string]interface{}{"tree": b.Summary(), "flavor": flavor, "workers": workers, "killAfterCallbacks": chain, "interruptBy": mode}
+		if env.restricted() {
+			cls += "/" + env.String()
+			input["cpusAllowed"], input["GOMAXPROCS"] = env.Cpus, env.Procs
+		}
 		c.Out.Emit(&lib.Case{Group: "resume", Class: cls, Nontrivial: len(kills) >= 1 && len(ents) >= 3,
-			Input:  map[string]interface{}{"tree": b.Summary(), "flavor": flavor, "workers": workers, "killAfterCallbacks": chain, "interruptBy": mode},
+			Input:  input,
 			Obs:    map[string]interface{}{"kills": kills, "final": final.Class, "counts": final.Counts, "entryDone": len(final.Done)},
 			Oracle: oracle, Coq: coq})
+		if final.Class == "hang" && len(kills) == 0 {
+			break // before any interruption: the other chains of this configuration start the same way
+		}
 	}
 	return nil
 }
@@ -1309,10 +1589,10 @@ func c19ResumeCorpus(c *Ctx) error {
 	for i := 0; i < 60; i++ {
 		b.Put(lib.Entry{Path: fmt.Sprintf("s/f%03d", i), Kind: "file", Data: r.Bytes(r.Range(0, 200))})
 	}
-	if err := c19ResumeConfig(c, r, b, "big+small", "zip", 4, [][]int{{3}, {20}, {2, 5}}, "process", "resume-watermark"); err != nil {
+	if err := c19ResumeConfig(c, r, b, "big+small", "zip", 4, [][]int{{3}, {20}, {2, 5}}, "process", "resume-watermark", c19Env{}); err != nil {
 		return err
 	}
-	return c19ResumeConfig(c, r, b, "big+small", "zip", 4, [][]int{{1}, {3}, {8}, {20}, {2, 5}}, "freeze", "resume-watermark-freeze")
+	return c19ResumeConfig(c, r, b, "big+small", "zip", 4, [][]int{{1}, {3}, {8}, {20}, {2, 5}}, "freeze", "resume-watermark-freeze", c19Env{})
 }
 
 func c19ResumeCases(c *Ctx) error {
@@ -1354,7 +1634,7 @@ func c19ResumeCases(c *Ctx) error {
 				chains = append(chains[:3], chains[len(chains)-1])
 			}
 		}
-		if err := c19ResumeConfig(c, cr, b, class, flavor, workers, chains, mode, ""); err != nil {
+		if err := c19ResumeConfig(c, cr, b, class, flavor, workers, chains, mode, "", c19Env{}); err != nil {
 			return err
 		}
 	}
@@ -1373,7 +1653,7 @@ func c19ResumeCases(c *Ctx) error {
 		if i%4 == 3 {
 			mode = "process"
 		}
-		if err := c19ResumeConfig(c, cr, b, "contents", []string{"zip", "czip"}[i%2], []int{4, 1, 16, 2, -1}[i%5], chains, mode, ""); err != nil {
+		if err := c19ResumeConfig(c, cr, b, "contents", []string{"zip", "czip"}[i%2], []int{4, 1, 16, 2, -1}[i%5], chains, mode, "", c19Env{}); err != nil {
 			return err
 		}
 	}
@@ -1401,7 +1681,7 @@ func runC19Race(c *Ctx) error {
 		return err
 	}
 	r := lib.NewRng(p.Seed)
-	return c19OneExtract(c, r, c19GenTree(r, p.Class, false), p.Class, p.Flavor, p.Workers, p.Resume)
+	return c19OneExtract(c, r, c19GenTree(r, p.Class, false), p.Class, p.Flavor, p.Workers, p.Resume, c19Env{})
 }
 
 func c19RaceCases(c *Ctx, corpus bool) error {
